@@ -9,6 +9,7 @@ import (
 	"fmt"
 	"io"
 	"net"
+	"os"
 	"runtime"
 	"sync"
 	"sync/atomic"
@@ -33,6 +34,8 @@ type poolMon struct {
 	held    map[int64]bool
 	made    int64
 	maxLive int
+	evmu    sync.Mutex
+	events  []string // per-wire trace, reported with an accounting violation
 }
 
 func (m *poolMon) makeWire(fail bool) *rueidis.VerifWire {
@@ -44,6 +47,7 @@ func (m *poolMon) makeWire(fail bool) *rueidis.VerifWire {
 		w.SetError(fmt.Errorf("dial failed"))
 	}
 	m.live[w.ID] = w
+	m.ev(w.ID, fmt.Sprintf("made fail=%v", fail))
 	m.sweepLocked()
 	if len(m.live) > m.cap {
 		m.run.Violation("over-capacity", m.name, map[string]any{"case": m.name, "cap": m.cap, "live_connections": len(m.live)})
@@ -63,7 +67,14 @@ func (m *poolMon) sweepLocked() {
 	}
 }
 
+func (m *poolMon) ev(id int64, what string) {
+	m.evmu.Lock()
+	m.events = append(m.events, fmt.Sprintf("%d w%d %s", mon.Stamp(), id, what))
+	m.evmu.Unlock()
+}
+
 func (m *poolMon) acquired(w *rueidis.VerifWire) {
+	m.ev(w.ID, "held")
 	m.mu.Lock()
 	defer m.mu.Unlock()
 	if m.held[w.ID] {
@@ -152,11 +163,14 @@ func runPoolCase(run *mon.Run, pc poolCase) {
 						pm.acquired(w)
 						time.Sleep(time.Duration(grng.Intn(3000)) * time.Microsecond)
 						if grng.Intn(100) < pc.breakPct {
+							pm.ev(w.ID, "broken-by-holder")
 							w.Close() // as mux.blocking does when the command failed
 						}
 						pm.releasing(w)
 					}
+					pm.ev(w.ID, fmt.Sprintf("store err=%v closed=%d", w.Error(), w.Closed.Load()))
 					pool.Store(w)
+					pm.ev(w.ID, fmt.Sprintf("stored closed=%d", w.Closed.Load()))
 				}
 				cancel()
 				if n := ops.Add(1); pc.closeAt > 0 && int(n) == pc.closeAt {
@@ -169,13 +183,35 @@ func runPoolCase(run *mon.Run, pc poolCase) {
 	}
 	wg.Wait()
 	// quiescence: everything handed out came back or was closed
-	pm.mu.Lock()
-	pm.sweepLocked()
-	liveN := len(pm.live)
-	pm.mu.Unlock()
-	size, idle, _, down := pool.Stats()
+	// The pool's idle clean-up timer may fire while this check runs (it closes idle wires beyond minSize): the three figures
+	// are taken between two identical readings of the pool's own state, so that they describe one moment. (Reading the
+	// live connections first and the pool afterwards produced a false alarm about once in ten thorough runs.)
+	var size, idle, liveN int
+	var down bool
+	for try := 0; ; try++ {
+		s0, i0, _, d0 := pool.Stats()
+		pm.mu.Lock()
+		pm.sweepLocked()
+		liveN = len(pm.live)
+		pm.mu.Unlock()
+		size, idle, _, down = pool.Stats()
+		if (s0 == size && i0 == idle && d0 == down) || try > 1000 {
+			break
+		}
+		run.Observe("quiescence_readings_repeated_pool_changed_meanwhile", 1)
+		runtime.Gosched()
+	}
 	if !down && (size != idle || liveN != idle) {
-		run.Violation("accounting-at-quiescence", pc.name, map[string]any{"case": pc.name, "size": size, "idle": idle, "live_connections": liveN})
+		var liveIDs []int64
+		pm.mu.Lock()
+		for id := range pm.live {
+			liveIDs = append(liveIDs, id)
+		}
+		pm.mu.Unlock()
+		pm.evmu.Lock()
+		evs := append([]string(nil), pm.events...)
+		pm.evmu.Unlock()
+		run.Violation("accounting-at-quiescence", pc.name, map[string]any{"case": pc.name, "size": size, "idle": idle, "live_connections": liveN, "live_ids": liveIDs, "wire_events": evs})
 	}
 	if size < 0 && !down {
 		run.Violation("negative-size", pc.name, map[string]any{"case": pc.name, "size": size})
@@ -403,6 +439,14 @@ func TestC24(t *testing.T) {
 		}
 		if rng.Intn(3) == 0 {
 			pc.closeAt = 1 + rng.Intn(pc.goroutines*pc.ops)
+		}
+		if only := os.Getenv("VERIF_C24_ONLY"); only != "" && only != pc.name { // debugging aid (check.sh never sets it)
+			continue
+		} else if only != "" {
+			for rep := 0; rep < 3000 && run.Violations() == 0; rep++ {
+				drv.Bubble(t, func() { runPoolCase(run, pc) })
+			}
+			fmt.Printf("DEBUG case %+v\n", pc)
 		}
 		dl, stacks := drv.Bubble(t, func() { runPoolCase(run, pc) })
 		if dl != "" {
